@@ -8,17 +8,27 @@ Proof      : coq/Props/C19.v over coq/Model/FLock.v (FileLock in flock mode over
              time arithmetic involved).  Unbounded: any number of clients, any interleaving at primitive
              granularity, any zone / rendering history.  C19_s3_environment_irrelevant: erasing the
              environment events of ANY run changes nothing observable (simulation proof).
-             Local lock ACROSS PROCESSES: coq/Model/ProcLock.v (FileLock handles placed in OS processes by an arbitrary
-             topology, open file descriptions, descriptor inheritance by fork(), process deaths; the handle program and
-             the ownership discipline are regenerated from FileLock by translator/gen_filelock.py -> Gen/GenFileLock.v).
-             Proofs/ProcLockC19Proofs.v: for every topology and every event list whose forks copy idle handles: at most one
-             holder and the flag is the kernel's owner (C19_proc_mutex_any_topology), a holder's death frees the lock and
-             any idle handle of another process is then granted (C19_proc_death_frees), success only from a free lock
-             (C19_proc_granted_only_when_free), a blocked acquirer is never granted while the holder neither unlocks nor
-             dies, whatever else happens (C19_proc_blocked_never_succeeds), an idle handle has no descriptor so a fork
-             inherits nothing (C19_proc_idle_handle_has_no_descriptor); C19_proc_kept_descriptor_refuted: the witnesses
-             for a handle that keeps its descriptor across acquisitions (two holders after a fork; a dead holder's lock
-             survives).
+             Local lock ACROSS PROCESSES: coq/Model/ProcLock.v + ProcFork.v (FileLock handles placed in OS processes by an
+             arbitrary topology, open file descriptions, process deaths, and fork() as the kernel performs it: `PFork p p' tw`
+             copies EVERY handle object and EVERY open descriptor of the forking process -- the event is not enabled when a
+             descriptor of the process is left out; the handle program and the ownership discipline are regenerated from
+             FileLock by translator/gen_filelock.py -> Gen/GenFileLock.v).
+             Proofs/ProcForkProofs.v, all `_quiescent_partial` = under the hypothesis pforks_quiescent (at a fork NO handle of
+             the forking process is inside an acquisition): for every topology and every such event list at most one holder,
+             the holder is the kernel's owner, and the flag is_held() returns is set exactly for the owner and for a handle
+             inside its own release() after the unlock, where the kernel lock is already gone
+             (C19_proc_mutex_quiescent_partial); a holder's death frees the lock and any idle handle of another process is then
+             granted (C19_proc_death_frees_quiescent_partial); success only from a free lock
+             (C19_proc_granted_only_when_free_quiescent_partial); a blocked acquirer is never granted while the holder neither
+             unlocks nor dies, whatever else happens (C19_proc_blocked_never_succeeds_quiescent_partial; safety only, the
+             timeout is C19_flock_timeout of the single-process model); a process whose handles are idle has no descriptor so
+             its fork inherits nothing (C19_proc_idle_process_has_no_descriptor_quiescent_partial).  The statements WITHOUT the
+             hypothesis are Definitions and refuted: C19_proc_mutex_full_refuted (fork while holding: parent and child hold),
+             C19_proc_death_frees_full_refuted (process with an idle and a holding handle forks: the child keeps the owning
+             description open, the holder's death does not free the lock, an outsider is refused until the child is gone),
+             C19_proc_flag_is_owner_full_refuted (two flags set: one handle inside release(), another granted).
+             C19_proc_kept_descriptor_refuted: the witnesses for a handle that keeps its descriptor across acquisitions (two
+             holders after a fork; a dead holder's lock survives).
 Tie        : translator/gen_lockage.py regenerates the lease-age kernel of _try_takeover_expired (the
              expression compared with the lease and the guard) into Gen/GenLockAge.v, which Lock.v's age
              step is stated over; translator/gen_lockconst.py (constants + golden pins of the modelled
@@ -53,7 +63,10 @@ Processes  : harness/lib/lockprocs.py: schedules over REAL OS processes -- spawn
              timeout .. timeout + poll + allowance.  A fork WHILE HELD duplicates the holder (fork(2)): the copies count as
              one acquisition, over when one of them releases or all are dead; stale copied flags are not judged.
              Correspondence proc-lock-layer: every primitive on the lock file (real kernel's answers), every fork and
-             death of every run must be accepted by ProcLock.lrun_strict and end in the same holder / descriptor counts.
+             death of every run must be accepted by ProcFork.prun_strict (one PFork per fork() naming the copies of ALL the
+             parent's handles) and end in the same holder / descriptor counts -- including a process with an idle and a
+             holding handle that forks and dies (topology fork-while-other-handle-held: the real kernel keeps the lock for
+             the child, as C19_proc_death_frees_full_refuted says).
 Not judged : a NAIVE LastModified (no zone in the reply's date; boto3 never yields one for S3) makes
              acquire() raise TypeError from the aware-minus-naive subtraction: modelled (SRaised), compared,
              counted (s3_outcomes.raised) -- it fails closed, never a success, and the property text does
@@ -80,8 +93,10 @@ THEOREMS = [
     "C19_s3_local_field_age_is_zone_shifted", "C19_s3_local_field_age_premature", "C19_s3_superseded", "C19_s3_is_held_sound", "C19_s3_timeout",
     "C19_s3_ok_only_when_unowned", "C19_s3_mutex_partial", "C19_s3_mutex_refuted",
     "C19_s3_mutex_gap_hypothesis_insufficient", "C19_s3_mutex_conditional_delete",
-    "C19_proc_mutex_any_topology", "C19_proc_death_frees", "C19_proc_granted_only_when_free", "C19_proc_blocked_never_succeeds",
-    "C19_proc_idle_handle_has_no_descriptor", "C19_proc_kept_descriptor_refuted",
+    "C19_proc_mutex_quiescent_partial", "C19_proc_mutex_full_refuted", "C19_proc_flag_is_owner_full_refuted",
+    "C19_proc_death_frees_quiescent_partial", "C19_proc_death_frees_full_refuted",
+    "C19_proc_granted_only_when_free_quiescent_partial", "C19_proc_blocked_never_succeeds_quiescent_partial",
+    "C19_proc_idle_process_has_no_descriptor_quiescent_partial", "C19_proc_kept_descriptor_refuted",
 ]
 REQ = ["DS.Model.FLock", "DS.Model.Lock", "DS.Gen.GenLockConst"]
 KNOWN_KEY = "s3-release-get-then-unconditional-delete-after-takeover"
@@ -90,10 +105,13 @@ MANIFEST_ENTRY = {
     "level_text": "Coq theorems over executable models of FileLock (flock mode) and of the S3 conditional-write lock, for "
                   "every interleaving of any number of clients at primitive granularity: local mutual exclusion, single "
                   "inode, release on death, timeout bounds; the local lock across PROCESSES under every process topology "
-                  "(Model/ProcLock.v: handles in OS processes, open file descriptions, fork inheritance, deaths; program and "
-                  "discipline regenerated from FileLock): one holder, death frees, success only from a free lock, a blocked "
-                  "acquirer never granted while the holder lives (C19_proc_*), tied to the code by schedules over real "
-                  "processes (separate, forked before use / after cycles / after a refusal / while held, pools, grandchildren) "
+                  "(Model/ProcLock.v + ProcFork.v: handles in OS processes, open file descriptions, deaths, fork() copying the "
+                  "WHOLE descriptor table of the forking process; program and discipline regenerated from FileLock) and every "
+                  "schedule whose forks happen while no handle of the forking process is inside an acquisition: one holder, "
+                  "death frees, success only from a free lock, a blocked acquirer never granted while the holder lives "
+                  "(C19_proc_*_quiescent_partial; the unrestricted statements are refuted: C19_proc_*_full_refuted), tied to the "
+                  "code by schedules over real processes (separate, forked before use / after cycles / after a refusal / while "
+                  "held / while ANOTHER handle of the process holds, pools, grandchildren) "
                   "whose lock-file primitives must be accepted by the model; S3 takeover only after lease, superseded holders observe the "
                   "loss, is_held soundness, timeout bound -- for every history of the process time zone and of the "
                   "rendering of LastModified (environment events in the model; C19_s3_environment_irrelevant: erasing them "
@@ -101,8 +119,18 @@ MANIFEST_ENTRY = {
                   "datetime model (Gen/GenLockAge.v, Model/PyTime.v); models tied to the code by schedule-for-schedule "
                   "differential execution of the real classes under a deterministic cooperative scheduler, the S3 runs "
                   "in processes east / west of UTC (TZ + tzset) with aware (tzutc, foreign offsets) and naive LastModified",
-    "level_note": "C19_proc_* assume forks_quiescent (a fork copies idle handles; a fork while held duplicates the holder = fork(2), "
-                  "exercised by the process schedules with the copies judged as one acquisition). C19_s3_mutex is proved only as C19_s3_mutex_partial (hypothesis: no release's DELETE lands after the "
+    "level_note": "C19_proc_*_quiescent_partial assume pforks_quiescent: at a fork NO handle of the forking process is inside an "
+                  "acquisition (attempt in progress, holding, inside release()). The property text says 'under any schedule' and a "
+                  "fork from inside a commit is one: the full statements are Definitions refuted by C19_proc_mutex_full_refuted "
+                  "(fork while holding = fork(2) duplicating the holder) and C19_proc_death_frees_full_refuted (fork while another "
+                  "handle of the process holds: the child's inherited descriptor keeps the lock after the holder's death); both "
+                  "shapes are exercised by the process schedules over real processes with the copies judged as ONE acquisition, "
+                  "and are fork(2) semantics, not a repairable defect of FileLock. `lholds` = flag set and not inside release(): "
+                  "is_held() returns the flag `_locked`, which release() clears only after unlock + close, so inside release() "
+                  "the flag is True with the kernel lock gone (stated in C19_proc_mutex_quiescent_partial, conjuncts 3-4; "
+                  "C19_proc_flag_is_owner_full_refuted: two flags at once) -- 'never reports a lock that is not held' is proved "
+                  "outside release() only. C19_proc_blocked_never_succeeds_quiescent_partial is safety only (the process machine "
+                  "has no clock); the timeout bound is C19_flock_timeout of the single-process model, not linked formally. C19_s3_mutex is proved only as C19_s3_mutex_partial (hypothesis: no release's DELETE lands after the "
                   "releaser's own lease lapsed; C19_s3_mutex_gap_hypothesis_insufficient shows the weaker GET-to-DELETE-gap "
                   "hypothesis does not suffice); the full statement is refuted by C19_s3_mutex_refuted = known finding "
                   + KNOWN_KEY + " and holds for the variant with a conditional DELETE (C19_s3_mutex_conditional_delete). "
@@ -609,7 +637,7 @@ def check_flock(ctx) -> None:
 
 
 # ---------------------------------------------------------------------------------- local lock: process topologies
-REQ_P = ["DS.Gen.GenFileLock", "DS.Model.ProcLock"]
+REQ_P = ["DS.Gen.GenFileLock", "DS.Model.ProcLock", "DS.Model.ProcFork"]
 
 
 def proc_topologies() -> List[Tuple[str, List[List[Any]], List[Tuple[str, int]]]]:
@@ -638,6 +666,11 @@ def proc_topologies() -> List[Tuple[str, List[List[Any]], List[Tuple[str, int]]]
          [("A", 0), ("B", 1), ("B", 0)]),
         ("fork-while-held", [["spawn", "A"], ["new", "A", 0], ["acq", "A", 0], ["fork", "A", "B"], ["spawn", "C"], ["new", "C", 0]],
          [("A", 0), ("C", 0), ("B", 0)]),
+        # a process with an idle and a holding handle forks: fork(2) copies the WHOLE descriptor table, the child keeps the
+        # owning description open, the lock survives the parent's death until the child is gone
+        ("fork-while-other-handle-held", [["spawn", "A"], ["new", "A", 0], ["new", "A", 1], ["acq", "A", 1], ["fork", "A", "B"],
+                                          ["spawn", "C"], ["new", "C", 0], ["kill", "A"], ["acq", "C", 0]],
+         [("C", 0), ("B", 0), ("B", 1)]),
         ("fork-while-held-after-cycle", [["spawn", "A"], ["new", "A", 0]] + cyc + [["acq", "A", 0], ["fork", "A", "B"], ["spawn", "C"], ["new", "C", 0]],
          [("C", 0), ("A", 0), ("B", 0)]),
     ]
@@ -710,7 +743,7 @@ def random_family(rng, max_len: int) -> List[List[Any]]:
 def check_procs(ctx) -> None:
     """Process topologies of the local lock: real processes (harness/lib/lockprocs.py), implementation-only oracles on
     every state, and the lock-file primitives of every run (with the real kernel's answers, every fork, every death)
-    accepted by Model/ProcLock.v under the regenerated discipline."""
+    accepted by Model/ProcLock.v + ProcFork.v (whole-process forks) under the regenerated discipline."""
     from harness.lib import lockprocs as LP
     quick = ctx.tier == "quick"
     rng = ctx.rng
@@ -1258,7 +1291,7 @@ def run(ctx) -> None:
         ".timestamp() / mktime(timetuple()) reading naive fields as local time; fixed-offset zones; exercised by the "
         "correspondence under real TZ settings",
         "translator/gen_filelock.py (FileLock's primitive skeleton and ownership discipline -> Gen/GenFileLock.v, fail-closed); "
-        "kernel flock semantics across processes as written in Model/ProcLock.v (grants / drops / shared descriptions after fork / "
+        "kernel flock semantics across processes as written in Model/ProcLock.v + ProcFork.v (grants / drops / whole-table fork: shared descriptions / "
         "last-descriptor close), compared with the real kernel's answers in every process-family run; harness/lib/lockprocs.py",
         "harness: harness/lib/coop.py (scheduler), lockshims.py (patched primitives), fakes3_lock.py, lockruns.py, "
         "harness/props/c19.py; the heartbeat thread is replaced by explicit renew events, each running ONE iteration of the "
@@ -1268,8 +1301,9 @@ def run(ctx) -> None:
         "scope: flock mode (fcntl available) and S3LockProvider (conditional writes); O_EXCL fallback and S3PollingLockProvider out of scope",
         "all S3 lock clients of one table use the same lease_seconds",
         "one FileLock / provider instance is used by one thread at a time (is_held() is judged between calls)",
-        "C19_proc_*: a fork copies idle handles (forks_quiescent); after a fork while held the copies are one holder, and a copied flag "
-        "whose acquisition was released through another copy is not judged",
+        "C19_proc_*_quiescent_partial: at a fork no handle of the forking process is inside an acquisition (pforks_quiescent); after a "
+        "fork while a handle of the process holds the copies are one holder, and a copied flag whose acquisition was released through "
+        "another copy is not judged",
         "C19_s3_mutex_partial: no release()'s DELETE lands after the releaser's own lease lapsed (otherwise: known finding)",
     ]
     ctx.proofs(THEOREMS, gen_files=["GenLockConst.v", "GenLockAge.v", "GenFileLock.v"])
